@@ -494,6 +494,9 @@ pub fn boundary_cases(thorough: bool) -> Vec<Case> {
                         default_policy: Policy::TopDown,
                         refuse: vec![],
                         sticky: false,
+                        loop_ops: vec![],
+                        loop_max: 0,
+                        post: vec![],
                     });
                 }
             }
@@ -579,6 +582,54 @@ fn placement_tree(w: &mut World, base: &Case, r: &mut Report) {
     }
 }
 
+/// Multi-segment release scenarios: n = 3, 4 heap segments that do not touch, each owning one large block
+/// (300 000 bytes or 3 MiB), every order of freeing all blocks, then a trigger of the allocator's release
+/// pass over its segment list while several list-adjacent segments are completely free:
+/// (a) a 3 MiB malloc+free (top passes the trim threshold), (b, thorough) the release_checks countdown:
+/// up to 4200 repetitions of malloc(1000) malloc(24) free free (one binned large free each).
+pub fn multiseg_cases(th: bool) -> Vec<Case> {
+    let mut v = Vec::new();
+    for n in [3usize, 4] {
+        let perms = permutations(n);
+        for mask in 0..(1usize << n) {
+            let sizes: Vec<usize> = (0..n).map(|i| if mask >> i & 1 == 1 { 3 * MIB } else { 300_000 }).collect();
+            for (pname, script, default) in [
+                ("all-D", vec![], Policy::Disjoint),
+                ("all-U", vec![], Policy::DisjointUp),
+                ("alternating-D-U", (0..12).map(|i| if i % 2 == 0 { Policy::Disjoint } else { Policy::DisjointUp }).collect(), Policy::Disjoint),
+            ] {
+                for perm in &perms {
+                    let mut ops: Vec<Op> = sizes.iter().map(|&s| Op::Malloc { size: s, align: 8 }).collect();
+                    ops.extend(perm.iter().map(|&i| Op::Free { slot: i }));
+                    let mk = |loop_ops: Vec<Op>, loop_max: usize, post: Vec<Op>| Case {
+                        phase: "multiseg",
+                        seed_name: format!("{n}-segments-{pname}"),
+                        seed: vec![],
+                        ops: ops.clone(),
+                        script: script.clone(),
+                        default_policy: default,
+                        refuse: vec![],
+                        sticky: false,
+                        loop_ops,
+                        loop_max,
+                        post,
+                    };
+                    let m = |size| Op::Malloc { size, align: 8 };
+                    v.push(mk(vec![], 0, vec![m(3 * MIB), Op::Free { slot: 0 }, m(1000), m(300_000), Op::Free { slot: 0 }, Op::Free { slot: 1 }]));
+                    if th {
+                        v.push(mk(
+                            vec![m(1000), m(24), Op::Free { slot: 0 }, Op::Free { slot: 1 }],
+                            4200,
+                            vec![m(1000), m(300_000), Op::Free { slot: 0 }, Op::Free { slot: 1 }],
+                        ));
+                    }
+                }
+            }
+        }
+    }
+    v
+}
+
 pub fn placement(args: &Args) -> Report {
     let th = args.thorough;
     let dl = dense_limit(th);
@@ -616,14 +667,46 @@ pub fn placement(args: &Args) -> Report {
             r
         }));
     }
+    let n_multi = multiseg_cases(th).len();
+    let msh = 16usize;
+    for sh in 0..msh {
+        items.push(isolated(format!("multiseg-{sh}"), move || {
+            let mut r = Report::new();
+            let mut w = World::new(dl);
+            for (i, c) in multiseg_cases(th).into_iter().enumerate() {
+                if i % msh != sh {
+                    continue;
+                }
+                r.eval();
+                r.nontrivial_unique();
+                let info = run_case(&mut w, &c, &mut r, false);
+                r.outcome(if info.multi_release { "multiseg:some-operation-released>=2-segments" } else { "multiseg:never-two-segments-in-one-pass" });
+                if i % 499 == 0 {
+                    r.sample(c.to_json());
+                }
+            }
+            r
+        }));
+    }
     let mut r = run_isolated(items, &args.out, "C03");
+    if r.outcomes.get("release-pass-released>=2-segments").copied().unwrap_or(0) == 0 {
+        r.cap("vacuity: no operation ever made the allocator release two or more segments in one pass (multi-segment scenarios not reached)");
+    }
+    if th && r.outcomes.get("loop-ended-by-release-pass").copied().unwrap_or(0) == 0 {
+        r.cap("vacuity: the release_checks countdown never triggered a release pass in the multi-segment scenarios");
+    }
     r.rule = format!(
-        "every history of exactly {depth} operations over {} that contains a request >= 60 000 bytes, under EVERY placement script: \
+        "(1) every history of exactly {depth} operations over {} that contains a request >= 60 000 bytes, under EVERY placement script: \
          a script assigns one of the 5 policies (T top-down first fit, B directly below the lowest mapping, A directly above the highest, D below with a one-page gap, \
          U above with a one-page gap) to each mmap the run performs (5^n scripts for n mmaps, explored as a tree because n depends on the script); \
-         one case = (history, complete script), generated once",
-        al.describe()
+         one case = (history, complete script), generated once. (2) multi-segment release scenarios ({n_multi} cases, each generated once): 3 and 4 heap segments that do not \
+         touch (placement all-D, all-U, alternating D/U), each owning one block of 300 000 bytes or 3 MiB (all 2^n size vectors), all blocks freed in every one of the n! orders, then \
+         a release-pass trigger: a 3 MiB malloc+free (trim){}, then further allocations; oracle as everywhere (no fault, live blocks intact, later allocations succeed). \
+         Vacuity guard: some operation must release >= 2 segments in one pass.",
+        al.describe(),
+        if th { " or, second variant, up to 4200 repetitions of malloc(1000) malloc(24) free free until the release_checks countdown (4095 binned large frees) fires" } else { "" }
     );
+    r.bound("multiseg_cases", n_multi);
     r.bound("depth", depth);
     r.bound("sizes", json!(sizes));
     r.bound("policies", 5);
@@ -687,6 +770,9 @@ pub fn oom_boundary_cases(th: bool) -> Vec<Case> {
                         default_policy: Policy::TopDown,
                         refuse: vec![],
                         sticky: false,
+                        loop_ops: vec![],
+                        loop_max: 0,
+                        post: vec![],
                     });
                 }
             }
